@@ -65,6 +65,15 @@ fn to_cfg(o: &Opts) -> Cfg {
 }
 
 impl Prop for C19 {
+    fn post(&self, ctx: &Ctx) -> Option<CaseOut> {
+        // thorough tier: the same workload with the real binary under valgrind memcheck
+        if ctx.tier != Tier::Thorough {
+            return None;
+        }
+        let mut out = CaseOut::default();
+        crate::sanit::memcheck_cli(ctx, "C19", &mut out);
+        Some(out)
+    }
     fn id(&self) -> &'static str {
         "C19"
     }
